@@ -110,7 +110,7 @@ PROPS['C11'] = dict(
     technique='Verus postconditions that define every limb of the selected column from the inputs only, plus frame clauses over all other limb blocks, on the extracted real text',
     level_text='Unbounded proof for the coefficient-domain column operations: each ensures gives final(res).limb(col, j) for all j < size as a function of the read-only inputs (no old(res) on the right-hand side for out-of-place ops) and frame_ok: every block outside (col, 0..size) is unchanged.',
     level_note='Covers the vec_znx_* reference operations, the transform-domain wrappers of vec_znx_dft.rs (fft64 and ntt120, numeric kernels abstract), the GLWE operation wrappers, and -- core layer, as a dependency-flow proof over assumed HAL flow contracts -- gglwe_product_dft, glwe_keyswitch_internal, glwe_keyswitch and glwe_decrypt: with nothing required of the previous contents of res or of the scratch arena, no limb of the result depends on stale bytes (the accumulator taken from scratch must be cleared before the digit-grouped product: for dsize >= 3 its last limbs are only ever added to); idft/svp/vmp/convolution kernels themselves and the other core operations are not covered by this check.  Matrix level (core_matrix): the GGSW / GGLWE external products write EVERY cell of the destination -- the product on the rows both operands have, zero on the rows only the destination has -- as a function of the inputs only.',
-    units=[V('core_matrix', lemmas=['lemma_same_layout']),
+    units=[V('core_glwe_encrypt'), V('core_matrix', lemmas=['lemma_same_layout']),
            K('poulpy-cpu-ref', 'verif_kani::c11_cnv', ['c11_cnv_apply_frame__n8_c2_r3'], cls='bounded', timeout=1500, bound='N = 8, destination 2 columns x 3 limbs with fully symbolic previous contents, operands 1 limb (all-zero prepared vectors), selected column symbolic', functions=['fft64 convolution_apply_dft: the selected column does not depend on the previous contents of the destination (tail limbs zero-filled) and the other column is untouched -- two-run comparison, structure-independent complement of the Verus unit cnv_apply_fft64']), K('poulpy-cpu-ref', 'verif_kani::c09_rings', ['c09_col_rotate__n4_p3', 'c09_col_add__n4'], cls='bounded', timeout=900, bound='N = 4, operand 1 limb (2), result 3 limbs, two columns, stale result', functions=['vec_znx_rotate, vec_znx_add_into: every limb of the selected column defined (zero past the operands), other column untouched -- index-level model']), K('poulpy-cpu-ref', 'verif_kani::c09_rings', ['c09_mul_xp_minus_one__n4_a1_r2_p1'], cls='bounded', timeout=900, bound='N = 4, operand 1 limb, result 2 limbs and 2 columns, all values symbolic (|a| < 2^62), stale result', functions=['vec_znx_mul_xp_minus_one (out of place): structure-independent complement of the Verus unit vec_znx_ring']), V('vec_znx_arith'), V('vec_znx_ring'), V('vec_znx_merge'), V('vec_znx_split'), V('vec_znx_big'), V('vec_znx_normalize'), V('vec_znx_dft'), V('vec_znx_dft_ntt120'), V('vmp_fft64'), V('vmp_ntt120'), V('cnv_prepare_fft64'), V('cnv_apply_fft64'), V('glwe_ops'), V('core_keyswitch'), V('core_extprod'), V('core_decrypt'),
            K('poulpy-cpu-ref', 'verif_kani::c11_ak', ['c11_ak_dft_apply__a3_r2_step2_off1', 'c11_ak_dft_apply__a2_r3_step1_off0', 'c11_ak_dft_apply__a3_r3_step2_off0', 'c11_ak_dft_apply__a2_r2_step1_off1'],
              cls='bounded', tier='thorough', timeout=1500, bound='FFT64Ref, N=8, two output columns, (a_size, res_size, step, offset) constant per harness; numeric kernels abstract',
@@ -346,7 +346,7 @@ PROPS['C01'] = dict(
     technique='Verus contracts: (i) on the integer statements sliced from the real NoiseInfos::target_limb_and_scale (where and at which scale the fresh error is injected); (ii) a dependency-flow contract on the real text of glwe_decrypt (poulpy-core/src/decryption/glwe.rs) over assumed flow contracts of the transform-domain HAL operations',
     level_text='Unbounded. (i) for every precision k in 1..=2^32 and every radix 1..=64 the error limb is ceil(k/base2k)-1 and the scale exponent is (limb+1)*base2k-k in [0, base2k): the error enters exactly at precision k. (ii) for every rank, limb count and ring degree, every limb of the decrypted plaintext depends on EXACTLY every active limb of every ciphertext column and every secret column: the phase is accumulated at the full ciphertext precision (no low limb is dropped before the final normalisation, which would cost more than the one unit of rounding the property allows), nothing of the scratch arena or of the previous plaintext contents reaches it, limbs beyond the plaintext size are untouched, no panic, and a scratch of exactly glwe_decrypt_tmp_bytes suffices.',
     level_note='(ii) is a statement about which inputs reach the output, not about values: that the accumulated phase equals message + error needs exact DFT products (C07) and is undecided, as are the encryption side, the public-key 1-norm bound, the sampling distribution and the compressed variants.  LWE (core_lwe_encrypt): encryption and decryption are under VALUE-level contracts over abstract HAL value functions -- the decrypted limbs are hal_normalize(pt radix, 0, ct radix, phase) with phase_i = b_i + <a_i, s>, for every pair of radices. The f64 exp2 of the exponent is dropped by the slice in (i).',
-    units=[V('core_lwe_encrypt'), V('noise', lemmas=['c01_target_limb_and_exponent']), V('core_decrypt'),
+    units=[V('core_glwe_encrypt'), V('core_lwe_encrypt'), V('noise', lemmas=['c01_target_limb_and_exponent']), V('core_decrypt'),
            K('poulpy-cpu-ref', 'verif_kani::c01_tailcut', ['c01_tailcut_fill_dist__n2', 'c01_tailcut_add_dist__n2', 'c01_tailcut_fill_normal__n2', 'c01_tailcut_add_normal__n2'], cls='bounded', timeout=1200,
              bound='2 coefficients, at most 2 rejected draws in total, tail cut 3.2 (= sigma, the tightest admissible), draws nondeterministic finite f64 in [-1000, 1000] from a scripted source',
              functions=['znx_fill_dist_f64_ref', 'znx_add_dist_f64_ref', 'znx_fill_normal_f64_ref', 'znx_add_normal_f64_ref (rejection sampling: each coefficient is the rounded FIRST in-bound draw, nothing beyond it is consumed; no error exceeds the bound)'])],
@@ -361,7 +361,7 @@ PROPS['C06'] = dict(
     technique='Kani contract check of the real uniform sampling kernels with the ChaCha8 stream abstracted to a symbolic tape: range, bijection on the low bits, one draw per coefficient, column frame; Verus contracts on the real text of Source::next_u64n, znx_fill_uniform_ref and vec_znx_fill_uniform_ref (unbounded in N and limb count): which stream word lands in which coefficient',
     level_text='Unbounded (Verus): coefficient k of limb j of the filled column is the balanced digit of stream word pos + j*N + k, the source advances by exactly N*size words, no other limb is written -- the mask is a function of the mask seed and the stream position only. Complete in stream values and radix (1..=62/63), bounded in shape (N=2, size 2) (Kani): every mask limb lies in [-2^(b-1), 2^(b-1)) and is a bijective image of the low b bits of exactly one stream word, coefficients consume the stream in order (limb-major), other columns are untouched; next_u64n never rejects for power-of-two bounds.',
     level_note='Statistical claims (sigma of the error, uniformity of ChaCha8 itself) and seed separation of the encryption routines are not contract properties / not covered; Source::new is abstracted (cpuid).',
-    units=[V('core_lwe_encrypt'), V('sampling'), V('core_encrypt'), V('cbt_key_encrypt'),
+    units=[V('core_lwe_encrypt'), V('sampling'), V('core_encrypt'), V('cbt_key_encrypt'), V('core_glwe_encrypt'),
            K('poulpy-hal', 'verif_kani', ['c06_next_u64n_power_of_two', 'c06_vec_znx_fill_uniform__n2_size2'], cls='complete', timeout=900, functions=['Source::next_u64n', '<VecZnx as FillUniform>::fill_uniform']),
            K('poulpy-cpu-ref', 'verif_kani', ['c06_vec_znx_fill_uniform_ref__n2_size2'], cls='complete', timeout=900, functions=['znx_fill_uniform_ref', 'vec_znx_fill_uniform_ref'])],
     trusted_base=VERUS_TRUST + ['Source reduced to (seed, words drawn) in the Verus unit'],
